@@ -602,6 +602,24 @@ def rule_sync_sets(prog):
             hits_ = [k for k in want if _re.search(r"(?<![A-Za-z0-9_])" + k + r"(?![A-Za-z0-9_])", so_)]
             if len(hits_) == 1:
                 owner = hits_[0]
+        if owner is None:
+            # ... or the recovery of the one node parser that (alone) uses it
+            cmap_ = hir.callers_map(prog, c.name)
+            frontier_, owners_ = {b["p"]}, set()
+            for _ in range(3):
+                nxt_ = set()
+                for p_ in frontier_:
+                    for cp_ in cmap_.get(p_, set()):
+                        cb_ = prog.body(cp_)
+                        d_ = cb_["d"] if cb_ is not None else cp_
+                        ow_ = [k for k in want if ("parser::" + k + " as") in d_ or (k + " as parser::Parser>::parse") in d_]
+                        if ow_:
+                            owners_.add(ow_[0])
+                        else:
+                            nxt_.add(cp_)
+                frontier_ = nxt_
+            if len(owners_) == 1:
+                owner = next(iter(owners_))
         found.setdefault(owner, []).append((last(la) if la else None, c.loc(n["sp"]), b["d"]))
     used = {k: found[k][0][0] for k in want if len(found.get(k, [])) == 1 and found[k][0][0] in sets}
     if set(used) != set(want):
@@ -1210,9 +1228,62 @@ def rule_parse_shape(prog):
                 fns.setdefault(b["name"], b)
     need = ("parse_bracketed", "parse_primary", "parse_unary", "parse_factor", "parse_rhs", "parse_mul", "parse_add",
             "parse_comparison")
+    canon = {}
+    if any(n not in fns for n in need):
+        # by role: the functions of the parser that yield an Expression, told apart by the tokens they ask for and the nodes they build
+        # (the levels may have been renamed and moved to a module of their own)
+        tags_ = tag_parsers(prog)
+        cands = [b for b in c.bodies if b["k"] == "fn" and (c.file_of(b["sp"]).endswith("src/parser.rs") or "/parser/" in c.file_of(b["sp"]))
+                 and "/tests" not in c.file_of(b["sp"]) and "sig_out" in b and "Expression" in c.tstr(b["sig_out"])]
+        role_of = {}
+        for b in cands:
+            toks_ = {tags_[n_["res"]["p"]] for n_ in hir.nodes(b["body"], "Path") if n_["res"].get("k") == "Def" and n_["res"].get("p") in tags_}
+            ctors_ = {last(n_["res"]["ctor_of"]) for n_ in hir.nodes(b["body"], "Path") if (n_["res"].get("ctor_of") or "").startswith("spl_frontend::ast::Expression::")}
+            structs_ = {last(n_.get("adt") or "") for n_ in hir.nodes(b["body"], "Struct")}
+            leafs_ = {n_["res"].get("p") or "" for n_ in hir.nodes(b["body"], "Path") if n_["res"].get("k") == "Def"}
+            r_ = None
+            if {"Times", "Divide"} <= toks_:
+                r_ = "parse_mul"
+            elif {"Plus", "Minus"} <= toks_:
+                r_ = "parse_add"
+            elif {"Eq", "Lt"} <= toks_ or {"Eq", "Neq"} <= toks_:
+                r_ = "parse_comparison"
+            elif "LParen" in toks_ and ("Bracketed" in ctors_ or "BracketedExpression" in structs_):
+                r_ = "parse_bracketed"
+            elif "Minus" in toks_ and ("Unary" in ctors_ or "UnaryExpression" in structs_):
+                r_ = "parse_unary"
+            elif "BinaryExpression" in structs_ or "Binary" in ctors_:
+                r_ = "parse_rhs"
+            elif {"IntLiteral", "Variable"} <= ctors_:
+                r_ = "parse_primary"
+            if r_ is not None and r_ not in role_of.values():
+                role_of[b["p"]] = r_
+        by_p = {b["p"]: b for b in cands}
+        # factor: the one that refers to exactly primary and unary
+        for b in cands:
+            if b["p"] in role_of:
+                continue
+            rf_ = {role_of.get(n_["res"].get("p")) for n_ in hir.nodes(b["body"], "Path") if n_["res"].get("k") == "Def" and n_["res"].get("p") in by_p}
+            rf_.discard(None)
+            if rf_ == {"parse_primary", "parse_unary"}:
+                role_of[b["p"]] = "parse_factor"
+        if set(role_of.values()) >= set(need):
+            fns = {r_: by_p[p_] for p_, r_ in role_of.items()}
+            canon = {by_p[p_]["name"]: r_ for p_, r_ in role_of.items()}
+    merged_primary = False
+    if "parse_primary" not in fns and "parse_factor" in fns:
+        # Primary folded into Factor (`Factor := IntLit | Variable | Bracketed | Unary`): the factor level builds the primary nodes itself
+        ct_ = {last(n_["res"]["ctor_of"]) for n_ in hir.nodes(fns["parse_factor"]["body"], "Path")
+               if (n_["res"].get("ctor_of") or "").startswith("spl_frontend::ast::Expression::")}
+        if {"IntLiteral", "Variable"} <= ct_:
+            fns["parse_primary"] = fns["parse_factor"]
+            merged_primary = True
     if any(n not in fns for n in need):
         out.missing("Expression::parse::{%s}" % ",".join(n for n in need if n not in fns))
         return out
+
+    def cn(name):
+        return canon.get(name, name)
 
     def refs(b):
         """local expression-level fns referenced (as value or call) in body b."""
@@ -1220,7 +1291,7 @@ def rule_parse_shape(prog):
         for n in hir.nodes(b["body"], "Path"):
             r = n["res"]
             if r.get("k") == "Def" and r["p"].startswith(b["p"].rsplit("::", 1)[0] + "::"):
-                res.append(last(r["p"]))
+                res.append(cn(last(r["p"])))
         return res
 
     def loop_kind(b):
@@ -1236,14 +1307,14 @@ def rule_parse_shape(prog):
         scope = b["p"].rsplit("::", 1)[0] + "::"
         for n in hir.nodes(b["body"], "Call"):
             hb = hir.local_callee_body(prog, n)
-            if hb is None or not hb["p"].startswith(scope) or hb["name"] in need:
+            if hb is None or not hb["p"].startswith(scope) or cn(hb["name"]) in need:
                 continue
             ids = _param_ids(hb)
             subst = {}
             for i, a_ in enumerate(n["args"]):
                 d = hir.path_def(a_)
-                if d and last(d["p"]) in need and i < len(ids) and ids[i] is not None:
-                    subst[ids[i]] = last(d["p"])
+                if d and cn(last(d["p"])) in need and i < len(ids) and ids[i] is not None:
+                    subst[ids[i]] = cn(last(d["p"]))
             if subst:
                 return hb, subst
         return b, {}
@@ -1253,9 +1324,10 @@ def rule_parse_shape(prog):
         b, subst = effective(b0)
 
         def name_of(e):
+            e = hir.strip_ref(e)
             d = hir.path_def(e)
             if d:
-                return last(d["p"]) if d["p"].startswith(b0["p"].rsplit("::", 1)[0]) else None
+                return cn(last(d["p"])) if d["p"].startswith(b0["p"].rsplit("::", 1)[0]) else None
             pl = hir.path_local(hir.strip(e))
             return subst.get(pl["id"]) if pl else None
         first = None
@@ -1311,7 +1383,9 @@ def rule_parse_shape(prog):
     out.add("Expression::parse::parse_unary", "operand parsed by parse_factor (allows `- - x`)", "parse_factor" in r and "parse_primary" not in r,
             c.loc(fns["parse_unary"]["sp"]), "found %s" % r)
     r = set(refs(fns["parse_factor"]))
-    out.add("Expression::parse::parse_factor", "= primary | unary", r == {"parse_primary", "parse_unary"}, c.loc(fns["parse_factor"]["sp"]), "found %s" % sorted(r))
+    out.add("Expression::parse::parse_factor", "= primary | unary", (r == {"parse_primary", "parse_unary"}) if not merged_primary else
+            ({"parse_unary", "parse_bracketed"} <= r and not (r & {"parse_mul", "parse_add", "parse_comparison", "parse_rhs"})),
+            c.loc(fns["parse_factor"]["sp"]), "found %s" % sorted(r))
     r = refs(fns["parse_bracketed"])
     out.add("Expression::parse::parse_bracketed", "inner expression restarts at comparison level", "parse_comparison" in r,
             c.loc(fns["parse_bracketed"]["sp"]), "found %s" % r)
@@ -1321,7 +1395,7 @@ def rule_parse_shape(prog):
     if top:
         r = refs_top(top[0])
         # (the level functions may live beside Expression::parse instead of inside it)
-        r += [last(n_["res"]["p"]) for n_ in hir.nodes(top[0]["body"], "Path")
+        r += [cn(last(n_["res"]["p"])) for n_ in hir.nodes(top[0]["body"], "Path")
               if n_["res"].get("k") == "Def" and any(n_["res"].get("p") == fb_["p"] for fb_ in fns.values())]
         out.add("Expression::parse", "entry is parse_comparison", "parse_comparison" in r, c.loc(top[0]["sp"]), "found %s" % r)
     # IfStatement: opt(preceded(keywords::else, ..)) after the branch parser => else binds to innermost if
@@ -2545,8 +2619,19 @@ def rule_error_owner(prog):
                             src = hir.strip(l["init"])
                 if src.get("k") == "MethodCall" and src["m"] == "filter" and src["args"] and inspects_error(src["args"][0]):
                     ok_entry = True
+                # (`match this { Some(old) if reports_outward(old) => None, other => other }`, `if let Some(old) = this { if .. { None } .. }`)
+                if src.get("k") == "Match" and any(a_.get("guard") is not None and inspects_error(a_["guard"]) and
+                                                   any(last(x_["res"].get("ctor_of") or "") == "None" for x_ in hir.nodes(a_["body"], "Path"))
+                                                   for a_ in src["arms"]):
+                    ok_entry = True
+                if src.get("k") == "If" and inspects_error(src["cond"]) and any(
+                        last(x_["res"].get("ctor_of") or "") == "None" for x_ in hir.nodes(src["then"], "Path")):
+                    ok_entry = True
                 for pr in parents:
                     if pr.get("k") == "Arm" and pr.get("guard") is not None and inspects_error(pr["guard"]):
+                        ok_entry = True
+                    # (`if let Some(old) = reusable(this) { affected(Some(old), ..) }`: the candidate comes out of a test of its own)
+                    if pr.get("k") == "If" and any(y is call for y in hir.nodes(pr["then"])) and inspects_error(pr["cond"]):
                         ok_entry = True
                 entries.append((ob, call, ok_entry))
         refuses = bool(entries) and all(e_[2] for e_ in entries)
